@@ -1,43 +1,143 @@
-"""Which functions under contract and which bounded stand-in checks decide each property."""
+"""Which functions under contract and which bounded stand-in checks decide each property.
+
+`functions`  : qualified names with a registered contract (proof stage, pyvc -> z3/cvc5)
+`extra`      : obligation providers decided by another back end (sympy / AST)
+`standin`    : bounded stand-in checks (never counted as proved)
+`proved` / `bounded` / `not_addressed` : the honest split of the property's clauses
+"""
 
 U = "pyttb.pyttb_utils."
-
 SP = "pyttb.sptensor.sptensor."
 
 PLAN = {
+    "C01": dict(
+        level="proof",
+        functions=[U + "tt_sub2ind", U + "tt_ind2sub"],
+        standin=["c01.dense_sparse", "c01.matricize", "c01.structured_to_dense", "c03.unary"],
+        proved=["the index maps every conversion is built on: tt_sub2ind / tt_ind2sub are RAVEL/UNRAVEL of each row and mutually inverse (lemma L1), for all orders and shapes"],
+        bounded=["dense<->sparse (every pattern, every stored order), tensor<->tenmat and sptensor<->sptenmat for every ordered mode partition incl. empty sides and fc/bc/t, Kruskal/Tucker/sum -> dense, shapes <= 16 cells"],
+        explanation="C01: proof of the linear-index layer; the conversions themselves are exercised by the bounded stand-in.",
+        budget_quick=40, budget_thorough=300,
+    ),
+    "C02": dict(
+        level="proof",
+        functions=[U + "tt_dimscheck"],
+        standin=["c02.ttv_ttm", "c02.mttkrp_innerprod_norm", "c02.contract_collapse_scale_ttt", "c17.khatrirao"],
+        proved=["mode selection and multiplicand alignment shared by every kernel of every class (tt_dimscheck): sorted modes, complement of excluded modes, vidx pairs multiplicand and mode for lists of length |dims| and N, all rejections"],
+        bounded=["ttv / ttm / mttkrp / mttkrps / ttt / ttsv / innerprod / norm / contract / collapse / scale / mask / reconstruct on dense, sparse, Kruskal, Tucker and sum holders against einsum definitions (every ordered mode selection, dims and exclude_dims, transpose flag)"],
+        explanation="C02: proof of the alignment layer; kernels by bounded stand-in.",
+        budget_quick=60, budget_thorough=600,
+    ),
     "C03": dict(
         level="proof",
         functions=[SP + "__mul__", U + "tt_ismember_rows"],
         standin=["c03.binary", "c03.unary"],
-        proved=["sptensor * sptensor and sptensor * scalar: Den(result) = product of the denotations, result well-formed, for all orders/shapes/nnz/stored orders; shape mismatch raises"],
+        proved=["sptensor * sptensor and sptensor * scalar: Den(result) = product of the denotations and the result is well-formed, for all orders / shapes / nnz / stored orders; shape mismatch raises"],
         bounded=["all other operators (+ - / logical_* == != < <= > >=, scalar / dense / sparse right-hand sides, unary ops) against dense NumPy semantics on every pair of patterns of small shapes"],
         explanation="C03: deductive proof for the operators under contract; every operator is additionally swept by the bounded stand-in.",
         budget_quick=60, budget_thorough=900,
+    ),
+    "C04": dict(
+        level="proof",
+        functions=[U + "tt_sub2ind", U + "tt_ind2sub", U + "tt_ismember_rows"],
+        standin=["c04.histories"],
+        proved=["linear <-> subscript conversion used by every linear read/write (first index fastest, negative indices, out-of-range rejection); row look-up used by sparse reads and writes (tt_ismember_rows)"],
+        bounded=["all read/write sequences of length <= 2 over every key form x right-hand-side form, sampled sequences of length 3-4, dense and sparse in lock-step against a reference array, incl. growth of extent and order"],
+        explanation="C04: proof of the index helpers; histories by bounded stand-in.",
+        budget_quick=40, budget_thorough=400,
+    ),
+    "C05": dict(
+        level="exploration",
+        functions=[],
+        standin=["c05.operations", "c05.algorithms"],
+        bounded=["~150 public operations per shape x 6 shapes (identity permutations, size-preserving reshapes, singleton modes): operands bit-for-bit unchanged, no array reachable from the result shares memory with an operand; 8 algorithm entry points with caller-supplied guesses"],
+        explanation="C05: bounded stand-in (memory-sharing and mutation audit on the real objects); the ownership domain of DESIGN 2.6 is not built.",
+        budget_quick=30, budget_thorough=120,
     ),
     "C06": dict(
         level="proof",
         functions=[SP + "__mul__", U + "tt_ismember_rows"],
         standin=["c06.unary_wf_order", "c06.binary_order", "c03.binary"],
-        proved=["well-formedness of sptensor * sptensor / scalar results (one value per subscript, in range, pairwise distinct, no explicit zero) independent of stored order (the contract does not mention order)"],
+        proved=["well-formedness of sptensor * sptensor / scalar results (one value per subscript, in range, pairwise distinct, no explicit zero); the contract does not mention stored order, so the result's denotation is order independent"],
         bounded=["well-formedness and order independence of every other public sparse operation: all n! stored orders for <= 4 nonzeros"],
         explanation="C06: WF obligations on the functions under contract; bounded stand-in for the rest.",
         budget_quick=60, budget_thorough=600,
     ),
     "C07": dict(
-        level="other",
-        functions=[],
-        standin=["c07.index_maps"],
-        bounded=["permute / reshape / squeeze on dense, sparse, Kruskal, Tucker holders: all N! orders, all factorisations, subset reshape, round trips (shapes <= 12 cells)"],
-        explanation="C07: bounded stand-in only so far (contracts for sptensor.permute/reshape/squeeze pending).",
+        level="proof",
+        functions=[U + "tt_sub2ind", U + "tt_ind2sub"],
+        standin=["c07.index_maps", "c06.unary_wf_order"],
+        proved=["F-order index maps used by sparse reshape (tt_sub2ind followed by tt_ind2sub) are inverse bijections"],
+        bounded=["permute / reshape / squeeze on dense, sparse, Kruskal, Tucker holders: all N! orders, all factorisations, subset reshape in every order of the listed modes, round trips (shapes <= 12 cells)"],
+        explanation="C07: proof of the index layer; the operations by bounded stand-in.",
         budget_quick=40, budget_thorough=300,
     ),
-    "C01": dict(
-        level="other",
+    "C08": dict(
+        level="exploration",
         functions=[],
-        standin=["c01.dense_sparse", "c01.matricize", "c01.structured_to_dense"],
-        bounded=["dense<->sparse, tensor<->tenmat, sptensor<->sptenmat for every ordered mode partition, Kruskal/Tucker/sum -> dense"],
-        explanation="C01: bounded stand-in only so far.",
+        standin=["c08.reparam", "c08.vector_list_algebra"],
+        bounded=["normalize (all variants), arrange, fixsigns, redistribute, extract, tovec/from_vector/update/tolist, + - neg scalar*, score on shapes incl. 1-way and singleton modes, ranks 1-4, weights of either sign / zero, zero columns"],
+        explanation="C08: bounded stand-in only (rank-one-term abstraction of DESIGN not built).",
+        budget_quick=30, budget_thorough=200,
+    ),
+    "C09": dict(
+        level="exploration",
+        functions=[],
+        standin=["c09.cp_als", "c05.algorithms"],
+        bounded=["cp_als on tiny problems x data kinds x ranks x starts x mode orders x optdims x sign fixing x printing x iteration limits: normal form, reported fit/residual recomputed, normal equations of the last updated mode, iteration limit, returned guess, monotone fit (tolerance 1e-9)"],
+        explanation="C09: bounded stand-in only.",
         budget_quick=40, budget_thorough=300,
+    ),
+    "C10": dict(
+        level="exploration",
+        functions=[],
+        standin=["c10.tucker"],
+        bounded=["hosvd (tolerances, requested ranks, both strategies, mode orders, data scales 1e-6..1e5) and tucker_als (starts, limits, exact-fit problems): orthonormal factors, core relation, error bound, exact ranks, reported fit, monotone fit"],
+        explanation="C10: bounded stand-in only.",
+        budget_quick=30, budget_thorough=200,
+    ),
+    "C12": dict(
+        level="proof",
+        functions=[],
+        extra=["pyvc.symcheck.derivative_obligations", "pyvc.symcheck.setup_pairing_obligations"],
+        standin=["c12.handles", "c12.evaluate_estimate", "c02.mttkrp_innerprod_norm"],
+        proved=["for each of the ten built-in losses the gradient handle is the derivative of the function handle on the loss's domain (sympy, from the real AST; Huber region by region)", "fg_setup.setup pairs every objective with its own loss, its own gradient, the same extra parameter and the lower bound of the loss's domain"],
+        bounded=["evaluate(): objective = weighted loss sum, gradients = finite differences of the objective, sparse data = dense data; estimate() on every entry equals evaluate(); mttkrps = per-mode mttkrp"],
+        explanation="C12: derivative obligations discharged by sympy on the real function bodies; tensor-level identities by bounded stand-in.",
+        budget_quick=30, budget_thorough=200,
+        technique="contract-based deductive verification: derivative obligations generated from the real AST and discharged by sympy; AST pairing obligations; bounded stand-in for tensor-level clauses",
+    ),
+    "C13": dict(
+        level="exploration",
+        functions=[],
+        standin=["c13.samplers", "c13.solvers"],
+        bounded=["sampler triples for every sampler kind and counts up to / beyond the available entries; SGD/Adam/Adagrad solves over rates from tiny to divergent (roll-backs, also back to back), trace vs. returned model, bounds, L-BFGS-B monotone, reuse of optimizer objects"],
+        explanation="C13: bounded stand-in only.",
+        budget_quick=30, budget_thorough=200,
+    ),
+    "C14": dict(
+        level="exploration",
+        functions=[],
+        standin=["c14.nvecs"],
+        bounded=["nvecs for every mode and count (iterative and dense paths) on dense / sparse / Kruskal / Tucker holders with well separated spectra: real orthonormal eigenvectors of the Gram matrix in decreasing order, sign convention, same subspace"],
+        explanation="C14: bounded stand-in only.",
+        budget_quick=30, budget_thorough=120,
+    ),
+    "C15": dict(
+        level="exploration",
+        functions=[],
+        standin=["c15.symmetry"],
+        bounded=["symmetrize / issymmetric for one or two disjoint groups (proper subsets included), both versions, details on/off, generic / symmetric / integer data; Kruskal symmetrise for even/odd order and weights of either sign"],
+        explanation="C15: bounded stand-in only.",
+        budget_quick=30, budget_thorough=120,
+    ),
+    "C16": dict(
+        level="exploration",
+        functions=[],
+        standin=["c16.roundtrip"],
+        bounded=["export/import round trip for dense, sparse (unsorted entries, both index bases), Kruskal and matrices (C-, F-ordered, views) over shapes incl. 1-way / singleton modes and doubles across the exponent range"],
+        explanation="C16: bounded stand-in only.",
+        budget_quick=30, budget_thorough=120,
     ),
     "C17": dict(
         level="proof",
@@ -57,8 +157,33 @@ PLAN = {
         explanation="C17: proof obligations over the real ASTs of the index/row helpers plus a bounded stand-in for the helpers not yet under contract.",
         budget_quick=40, budget_thorough=300,
     ),
+    "C18": dict(
+        level="exploration",
+        functions=[],
+        standin=["c18.presentation"],
+        bounded=["pairs of runs differing only in presentation (dense vs sparse incl. empty slices, printing, same seed, positive scaling 1e-6..1e5, mode relabelling) for cp_als, cp_apr x3, hosvd, tucker_als, gcp_opt/L-BFGS-B on tiny problems"],
+        explanation="C18: bounded stand-in only (non-interference analysis of DESIGN not built).",
+        budget_quick=40, budget_thorough=200,
+    ),
+    "C19": dict(
+        level="proof",
+        functions=[U + "tt_dimscheck", U + "tt_sub2ind", U + "tt_ind2sub", SP + "__mul__"],
+        standin=["c19.rejections", "c17.dimscheck"],
+        proved=["must-raise obligations of the functions under contract: tt_dimscheck (both selectors given, negative / out-of-range modes, out-of-range excludes, M > N, M not in {N, |dims|}), tt_sub2ind / tt_ind2sub (subscript or index outside the shape), sptensor * sptensor (shape mismatch)"],
+        bounded=["~180 (operation, violated precondition) pairs over three shapes: each raises and leaves its receiver unchanged"],
+        explanation="C19: prefix must-raise obligations for the functions under contract; the rest of the rejection table by bounded stand-in.",
+        budget_quick=30, budget_thorough=120,
+    ),
+    "C20": dict(
+        level="exploration",
+        functions=[],
+        standin=["c20.generators", "c06.unary_wf_order"],
+        bounded=["tenones/tenzeros/tenrand/from_function/tendiag/sptendiag/teneye shapes and entries; sptenrand/from_function counts, distinctness, reproducibility; from_aggregator with arbitrary multiplicities, zero values, cancellation and four reducers"],
+        explanation="C20: bounded stand-in only.",
+        budget_quick=30, budget_thorough=120,
+    ),
 }
 
 NOT_APPLICABLE = {
-    "C11": "CP-APR: the clauses are about the numerical trajectory of three iterative floating-point optimisers (likelihood no worse than the start, KKT diagnostics, objective equal to a recomputed log-likelihood); no per-function contract over NumPy glue decides them, and a bounded run would be testing, not this technique. Its frame clause (data and caller's guess unmodified) is decided under C05.",
+    "C11": "CP-APR: the clauses are about the numerical trajectory of three iterative floating-point optimisers (likelihood no worse than the start, KKT diagnostics, objective equal to a recomputed log-likelihood); no per-function contract over NumPy glue decides them, and a bounded run would be testing, not this technique. Its frame clause (data and caller's guess unmodified) is checked under C05.",
 }
